@@ -10,6 +10,7 @@ import (
 	"math/big"
 	"math/rand"
 	"os"
+	"os/exec"
 	"path/filepath"
 	"reflect"
 	"runtime"
@@ -167,6 +168,12 @@ func oracleEnc(t target, rseed int64, big bool, wantCoq bool) (coq string, msg s
 	}
 	fail := func(f string, a ...interface{}) (string, string, []byte) {
 		return "", fmt.Sprintf("%s value, encoding %s: ", t.name, trunc(b)) + fmt.Sprintf(f, a...), b
+	}
+	// canonical headers: short form up to 55 bytes, minimal size bytes, single bytes below 0x80 bare
+	if root, rest, ok := parseItem(b); !ok || len(rest) != 0 {
+		return fail("the encoding is not one well-formed RLP item")
+	} else if c := root.ser(0); !bytes.Equal(c, b) {
+		return fail("the encoding is not canonical RLP: its item tree serialises to %s", trunc(c))
 	}
 	// determinism: same value again, and a copy whose maps were built in another order
 	b2, err := codec.RLP.MarshalToBytes(x.Interface())
@@ -712,7 +719,87 @@ func corpusDir() string {
 	return "/verif/corpus/C23"
 }
 
+// ---------------------------------------------------------------------------
+// crash scan: a fatal runtime error (out of memory on a hostile size, stack exhaustion)
+// cannot be recovered in-process.  The generation is therefore first replayed in a child
+// process that announces every input on stderr before touching it; an input on which the
+// child dies is reported as a violation and not decoded again by the parent.
+// ---------------------------------------------------------------------------
+
+var scanning = os.Getenv("C23_SCAN") != ""
+var crashers = map[string]bool{}
+
+func announce(key string) {
+	if scanning {
+		fmt.Fprintf(os.Stderr, "SCAN %s\n", key)
+	}
+}
+
+func crashScan(c *hxlib.Ctx) {
+	if scanning {
+		for _, k := range strings.Split(os.Getenv("C23_SKIP"), ",") {
+			if k != "" {
+				crashers[k] = true
+			}
+		}
+		return
+	}
+	exe, err := os.Executable()
+	if err != nil {
+		c.Note("crash scan skipped: %v", err)
+		return
+	}
+	for round := 0; round < 4; round++ {
+		tmp, _ := os.MkdirTemp("", "c23scan")
+		cmd := exec.Command(exe, "gen", "-seed", fmt.Sprint(c.Seed), "-tier", c.Tier, "-out", tmp)
+		var keys []string
+		for k := range crashers {
+			keys = append(keys, k)
+		}
+		cmd.Env = append(os.Environ(), "C23_SCAN=1", "C23_SKIP="+strings.Join(keys, ","))
+		var errb bytes.Buffer
+		cmd.Stderr = &errb
+		cmd.Stdout = nil
+		runErr := cmd.Run()
+		os.RemoveAll(tmp)
+		code := 0
+		if ee, ok := runErr.(*exec.ExitError); ok {
+			code = ee.ExitCode()
+		} else if runErr != nil {
+			c.Note("crash scan could not run: %v", runErr)
+			return
+		}
+		if code == 0 || code == 3 {
+			c.Note("crash scan: child finished (rc=%d), %d crashing input(s)", code, len(crashers))
+			return
+		}
+		last := ""
+		for _, ln := range strings.Split(errb.String(), "\n") {
+			if strings.HasPrefix(ln, "SCAN ") {
+				last = strings.TrimPrefix(ln, "SCAN ")
+			}
+		}
+		if last == "" || crashers[last] {
+			c.Note("crash scan: child died (rc=%d) without a new input to blame", code)
+			return
+		}
+		crashers[last] = true
+	}
+}
+
+const crashMsg = "crashes the process (fatal runtime error: out of memory / stack exhaustion — not a recoverable panic)"
+
 func emitDec(c *hxlib.Ctx, kind string, t target, b []byte) bool {
+	key := "dec|" + t.name + "|" + hex.EncodeToString(b)
+	if crashers[key] {
+		if !scanning {
+			c.Emit(hxlib.Case{Kind: kind + "/crash", Key: key,
+				Input:      map[string]interface{}{"t": "dec", "v": decIn{t.name, hex.EncodeToString(b)}},
+				Nontrivial: true, OracleErr: fmt.Sprintf("decoding %s into %s: ", trunc(b), t.name) + crashMsg})
+		}
+		return false
+	}
+	announce(key)
 	coq, msg, acc := oracleDec(t, b, !c.OracleOnly)
 	if acc {
 		kind += "/accepted"
@@ -728,6 +815,7 @@ func emitDec(c *hxlib.Ctx, kind string, t target, b []byte) bool {
 func gen(c *hxlib.Ctx) {
 	runtime.GOMAXPROCS(1) // the pooled decoder of one call must be the one the next call gets
 	r := c.Rand
+	crashScan(c)
 
 	// (0) corpus of past failures first
 	files, _ := filepath.Glob(filepath.Join(corpusDir(), "*.json"))
@@ -781,6 +869,16 @@ func gen(c *hxlib.Ctx) {
 			if big {
 				rs = findBig(t, rs)
 			}
+			ekey := fmt.Sprintf("enc|%s|%d", t.name, rs)
+			if crashers[ekey] {
+				if !scanning {
+					c.Emit(hxlib.Case{Kind: "enc/crash", Key: ekey, Nontrivial: true,
+						Input:     map[string]interface{}{"t": "enc", "v": encIn{t.name, rs, big}},
+						OracleErr: fmt.Sprintf("encoding/decoding a generated %s value (rseed %d) ", t.name, rs) + crashMsg})
+				}
+				continue
+			}
+			announce(ekey)
 			coq, msg, b := oracleEnc(t, rs, big, !c.OracleOnly)
 			c.Emit(hxlib.Case{Kind: "enc/" + t.name, Coq: coq, Key: fmt.Sprintf("%s|%x", t.name, b),
 				Input:      map[string]interface{}{"t": "enc", "v": encIn{t.name, rs, big}},
@@ -904,6 +1002,9 @@ func replay(raw json.RawMessage) string {
 			return "unknown type " + v.Type
 		}
 		b, _ := hex.DecodeString(v.Hex)
+		if dies("dec", t.name, v.Hex) {
+			return fmt.Sprintf("decoding %s into %s: ", trunc(b), t.name) + crashMsg
+		}
 		_, msg, _ := oracleDec(t, b, false)
 		return msg
 	case "typed":
@@ -914,7 +1015,31 @@ func replay(raw json.RawMessage) string {
 	return "unknown case type " + in.T
 }
 
+// run one decode in a child process: does it kill the process?
+func dies(kind, name, hx string) bool {
+	exe, err := os.Executable()
+	if err != nil {
+		return false
+	}
+	cmd := exec.Command(exe, "probe", kind, name, hx)
+	err = cmd.Run()
+	if ee, ok := err.(*exec.ExitError); ok {
+		return ee.ExitCode() != 0
+	}
+	return false
+}
+
 func main() {
+	if len(os.Args) == 5 && os.Args[1] == "probe" {
+		runtime.GOMAXPROCS(1)
+		b, _ := hex.DecodeString(os.Args[4])
+		if os.Args[2] == "typed" {
+			oracleTypedDec(os.Args[3], b)
+		} else if t, ok := targetByName[os.Args[3]]; ok {
+			oracleDec(t, b, false)
+		}
+		os.Exit(0)
+	}
 	hxlib.Main(hxlib.Spec{
 		ID: "C23",
 		Rule: "valid: for each of the fixed Go types (ints of every width, bool, string, []byte, byte arrays, big.Int/HexInt, Hex* self-coders, raw items, slices, arrays, structs with embedded/unexported/optional fields, maps with string/int/uint keys, pointers) random values with nil/empty variants, boundary integers and string lengths around 0/1/55/56/255/256/65535/65536 are encoded with codec.RLP.MarshalToBytes and decoded back (bytes and decoded value compared with the model; oracle: round trip up to the documented canonical form, determinism incl. map insertion order, trailing bytes returned, every prefix rejected). malformed: structure-aware mutations of valid encodings (nil marker, extra/missing/duplicated/swapped items, widened integers, list<->string), non-canonical size headers, byte mutations, truncations, hostile size prefixes, valid bytes decoded into another type, random tag soup; decoded under a panic guard, a time limit and an allocation limit of 256 MiB, followed by a benign decode on the pooled decoder (oracle: no panic, remainder is a tail of the input, outermost declared size within the input, accepted values round-trip, pool clean; model: accept/reject, error class, value, remainder). non-trivial = encodings longer than one byte / non-empty inputs; distinct = distinct (type, bytes)",
